@@ -130,6 +130,7 @@ func (s *behaviorSubjectImpl[T]) ErrorWithContext(ctx context.Context, err error
 	}
 
 	s.mu.Unlock()
+	verifPoint("subject.terminal.unlocked")
 	s.unsubscribeAll()
 }
 
@@ -150,6 +151,7 @@ func (s *behaviorSubjectImpl[T]) CompleteWithContext(ctx context.Context) {
 	}
 
 	s.mu.Unlock()
+	verifPoint("subject.terminal.unlocked")
 	s.unsubscribeAll()
 }
 
